@@ -24,8 +24,10 @@
                          checkpoints are forwarded to the sub graphs interrupted inside, every
                          later task is built by createTasks); F's n_runs are the nodes that
                          execute in this call *)
+From Coq Require Import Permutation.
 From Eino Require Import Base.Util Model.Options Model.OptionsSpec Model.OptionsResume
-  Proofs.Options Proofs.OptionsResume.
+  Proofs.Options Proofs.OptionsResume Proofs.OptionsFired Proofs.OptionsPerm Proofs.OptionsClauses.
+From Eino Require Base.GoSlice Proofs.CallbacksSlice Model.OptionsSlice Proofs.OptionsSlice.
 Local Open Scope N_scope.
 
 (* ---- delivered_iff_addressed ------------------------------------------------------- *)
@@ -57,6 +59,38 @@ Theorem delivered_membership :
 Proof. exact spec_delivered_in. Qed.
 Print Assumptions delivered_membership.
 
+(* the clauses of the property text, read off the closed form ([addressed_items o p ty] is the
+   contribution of option o to what the component at p, of option type ty, receives):
+   an undesignated option reaches a component iff it has the component's option type ... *)
+Theorem undesignated_reaches_by_type :
+  forall o p ty,
+    o_paths o = [] ->
+    addressed_items o p ty = if ty_matches o ty then o_items o else [].
+Proof. exact undesignated_by_type. Qed.
+Print Assumptions undesignated_reaches_by_type.
+
+(* ... an option designated to a component reaches that component and no other node of the
+   forest, whatever its type ... *)
+Theorem designated_reaches_only_there :
+  forall F o p nd ty p' nd' ty',
+    o_paths o = [p] ->
+    resolve F 0 p = Some nd -> n_kind nd = KComp ty ->
+    resolve F 0 p' = Some nd' -> p' <> p ->
+    addressed_items o p' ty' = [] /\ addressed_items o p ty = o_items o.
+Proof. exact designated_only_there. Qed.
+Print Assumptions designated_reaches_only_there.
+
+(* ... and an option designated to a graph node reaches, below that node, the components of its
+   type, and nothing outside of it. *)
+Theorem designated_to_graph_reaches_inside :
+  forall o p p' ty',
+    o_paths o = [p] -> p <> [] ->
+    addressed_items o p' ty' =
+    if path_eqb p p' then o_items o
+    else if prefixb p p' && ty_matches o ty' then o_items o else [].
+Proof. exact designated_to_graph. Qed.
+Print Assumptions designated_to_graph_reaches_inside.
+
 (* ---- bad_designation_errors -------------------------------------------------------- *)
 (* The call fails iff some designated path of some option is bad; nothing else makes it fail
    (for options whose values have one type; a mixed WithLambdaOption(a, b) additionally fails
@@ -83,6 +117,18 @@ Theorem callbacks_only_where_designated :
               exists o, In o opts /\ In h (o_handlers o) /\ handler_addressed o (r_path r).
 Proof. exact run_call_fired. Qed.
 Print Assumptions callbacks_only_where_designated.
+
+(* The handler list itself (order and multiplicity, which the correspondence check compares) is
+   a function of the call's options and the node path alone — spec_fired (Proofs/OptionsFired.v)
+   walks down the path: at every level the handlers inherited so far, then those of the options
+   designated to that key at that level, in call order — whatever else the forest contains,
+   whichever nodes execute. *)
+Theorem callbacks_exact :
+  forall F opts rs r hs,
+    keys_unique F -> run_call F opts = Ok rs -> In r rs -> r_fired r = Some hs ->
+    hs = spec_fired (graph_handlers opts) opts (r_path r).
+Proof. exact run_call_fired_exact. Qed.
+Print Assumptions callbacks_exact.
 
 (* ---- resume_delivers_same / no_leak_between_calls ----------------------------------- *)
 (* A call that re-enters the run from a checkpoint — whatever the checkpoint holds, at every
@@ -121,6 +167,85 @@ Theorem no_leak_between_calls :
     (forall hs h, r_fired r = Some hs -> In h hs -> exists o, In o opts /\ In h (o_handlers o)).
 Proof. exact resume_call_no_leak. Qed.
 Print Assumptions no_leak_between_calls.
+
+Theorem resume_bad_designation_errors :
+  forall F opts c,
+    keys_unique F -> well_nested F -> F <> [] -> Forall uniform opts ->
+    (fails (resume_call F opts c) <->
+     exists o q, In o opts /\ In q (o_paths o) /\ bad_path F o 0 q = true).
+Proof. exact resume_call_fails_iff. Qed.
+Print Assumptions resume_bad_designation_errors.
+
+(* ---- map_order_irrelevant ----------------------------------------------------------- *)
+(* A graph's nodes are the keys of a Go map, iterated in an arbitrary order by extractOption
+   and by the validation of nested designations. Listing the nodes of any graph of the forest in
+   another order changes neither whether the call fails nor the set of reports (every node
+   receives the same option values in the same order and has the same handler list). *)
+Theorem map_order_irrelevant :
+  forall F F' opts,
+    keys_unique F -> well_nested F -> F <> [] -> Forall uniform opts -> forest_perm F F' ->
+    (fails (run_call F opts) <-> fails (run_call F' opts)) /\
+    (forall rs rs', run_call F opts = Ok rs -> run_call F' opts = Ok rs' ->
+       forall r, In r rs <-> In r rs').
+Proof. exact run_call_perm. Qed.
+Print Assumptions map_order_irrelevant.
+
+(* ---- options are values (F-C16a, ed95a2a) -------------------------------------------- *)
+(* Model/Options.v treats an Option as a value: designate o ps = o with paths o_paths o ++ ps.
+   On the level of Go slices (Model/OptionsSlice.v over Base/GoSlice.v, any growth policy of
+   append) the repaired DesignateNodeWithPath does just that: the derived option reads the
+   base's paths followed by the new ones, and no array that existed before is written, so
+   every option built earlier — the base, its other derivatives — still reads what it read. *)
+Theorem designate_copies :
+  forall pol h s ps,
+    GoSlice.wf h s ->
+    let r := OptionsSlice.designate_go pol h s ps in
+    GoSlice.read (fst r) (snd r) = GoSlice.read h s ++ ps /\ GoSlice.wf (fst r) (snd r) /\
+    CallbacksSlice.keeps (List.length h) h (fst r) /\
+    (forall t, GoSlice.wf h t -> GoSlice.read (fst r) t = GoSlice.read h t /\ GoSlice.wf (fst r) t).
+Proof. exact OptionsSlice.designate_go_spec. Qed.
+Print Assumptions designate_copies.
+
+(* the code before the repair (o.paths = append(o.paths, path...)) wrote into the spare capacity
+   of the base's array: building a second derivative changed the first *)
+Theorem designate_v0_refuted :
+  ~ (forall pol h s ps t, GoSlice.wf h s -> GoSlice.wf h t ->
+       GoSlice.read (fst (OptionsSlice.designate_v0 pol h s ps)) t = GoSlice.read h t).
+Proof. exact OptionsSlice.designate_v0_refuted_l. Qed.
+Print Assumptions designate_v0_refuted.
+
+(* ---- the behaviour before the repair F-C16c (4defab8) -------------------------------- *)
+(* run_call_v0 validates the options handed to a nested graph only when that graph runs
+   (Model/Options.v run_graph_v0): bad_designation_errors does not hold of it — an unknown node
+   designated inside a graph node that a branch skips is accepted. *)
+Theorem bad_designation_errors_v0_refuted :
+  ~ (forall F opts,
+       keys_unique F -> well_nested F -> F <> [] -> Forall uniform opts ->
+       (fails (run_call_v0 F opts) <->
+        exists o q, In o opts /\ In q (o_paths o) /\ bad_path F o 0 q = true)).
+Proof. exact bad_designation_errors_v0_refuted_l. Qed.
+Print Assumptions bad_designation_errors_v0_refuted.
+
+(* ---- the behaviour before the repair F-C16b (3394fa8) -------------------------------- *)
+(* a passthrough node was taken for a sub graph by extractOption (extract_option_v0b): the
+   extraction of a graph no longer rejected every designation that is bad at that level
+   (level_bad: empty / unknown / below a component / wrong type, the part of bad_path decided in
+   the graph the path starts in) — an option designated to a passthrough, or below it, passed *)
+Theorem extract_option_v0b_refuted :
+  ~ (forall g opts,
+       NoDup (map n_key g) ->
+       (fails (extract_option_v0b g opts) <->
+        exists o q, In o opts /\ In q (o_paths o) /\ level_bad g o q = true)).
+Proof. exact extract_option_v0b_refuted_l. Qed.
+Print Assumptions extract_option_v0b_refuted.
+
+(* ... which the repaired extraction does (for every graph, option list and initial map) *)
+Theorem extract_option_rejects_level_bad :
+  forall g opts m,
+    fails (extract_option g opts m) <->
+    exists o q, In o opts /\ In q (o_paths o) /\ level_bad g o q = true.
+Proof. exact extract_option_fails. Qed.
+Print Assumptions extract_option_rejects_level_bad.
 
 (* ---- non-vacuity -------------------------------------------------------------------- *)
 Definition exF : forest :=
@@ -216,3 +341,18 @@ Example resume_sensitivity :
        mkRep [2; 3] (Some []) (Some []) ] /\
   resume_call_gen true exF2 exOpts exCk <> run_call exF2 exOpts.
 Proof. split; [vm_compute; reflexivity|vm_compute; discriminate]. Qed.
+
+(* the example forest with the first two nodes of graphs 0 and 1 swapped: the reports come in
+   another order, so the two results differ as lists *)
+Definition exF' : forest :=
+  [ [mkNode 2 (KSub 1%nat) true true; mkNode 1 (KComp 6) true true; mkNode 3 (KComp 0) false true];
+    [mkNode 3 (KComp 7) true true; mkNode 1 (KComp 6) true true; mkNode 4 (KSub 2%nat) true false];
+    [mkNode 1 (KComp 6) true true] ].
+Example perm_example :
+  forest_perm exF exF' /\ exists rs', run_call exF' exOpts = Ok rs' /\ run_call exF exOpts <> Ok rs'.
+Proof.
+  split.
+  - constructor; [apply perm_swap|]. constructor; [apply perm_swap|].
+    constructor; [apply Permutation_refl|constructor].
+  - eexists. split; [vm_compute; reflexivity|]. vm_compute. discriminate.
+Qed.
